@@ -488,7 +488,13 @@ class nd:
         return f"{type(self).__name__}({self._d!r})"
 
 
+_NARROW = ("int8", "int16", "int32", "uint8", "uint16", "uint32", "uint64", "float16", "float32", "half", "single", "short", "intc")
+
+
 def _cast(x, dtype):
+    if getattr(dtype, "__name__", dtype if isinstance(dtype, str) else "") in _NARROW and (is_sym(x) or type(x) in (SReal, MaybeNaN)):
+        # S1 treats int64/float64 arithmetic as mathematical; a narrower type wraps around / rounds, which is not modelled
+        raise Unsupported("cast of a symbolic value to a narrow dtype (wrap-around / rounding is not modelled)")
     if dtype in (int, "int64") or getattr(dtype, "__name__", "") in ("int64", "int", "integer", "int32"):
         if type(x) is float:
             if math.isnan(x) or math.isinf(x):
